@@ -171,10 +171,12 @@ class FunctionLocalAnomalyScore(BaseLocalAnomalyScore):
 
 
 class L1Cost(BaseCost):
-    """Data-dependent user cost: sum of absolute deviations from the median (optimal
-    parameter) or from a fixed location (fixed parameter). Univariate, min size 1."""
+    """Data-dependent user cost: `scale` times the sum of absolute deviations from the median
+    (optimal parameter) or from a fixed location (fixed parameter). Univariate, min size 1.
+    `scale` is an extra hyper-parameter besides `param`, as user-defined costs may have."""
 
-    def __init__(self, param=None):
+    def __init__(self, param=None, scale=1.0):
+        self.scale = scale
         super().__init__(param)
 
     def _fit(self, X, y=None):
@@ -193,14 +195,14 @@ class L1Cost(BaseCost):
         out = np.zeros((len(starts), self._data.shape[1]))
         for i, (s, e) in enumerate(zip(starts, ends)):
             seg = self._data[s:e]
-            out[i] = np.abs(seg - np.median(seg, axis=0)).sum(axis=0)
+            out[i] = self.scale * np.abs(seg - np.median(seg, axis=0)).sum(axis=0)
         return out
 
     def _evaluate_fixed_param(self, starts, ends):
         out = np.zeros((len(starts), self._data.shape[1]))
         for i, (s, e) in enumerate(zip(starts, ends)):
             seg = self._data[s:e]
-            out[i] = np.abs(seg - self._loc).sum(axis=0)
+            out[i] = self.scale * np.abs(seg - self._loc).sum(axis=0)
         return out
 
 
